@@ -7,18 +7,59 @@ Definition below_set (s : fstate) (v : nat) : Prop := v <= fn s /\ forall k, k <
 
 Definition pc_ok (s : fstate) (p : fpc) : Prop :=
   match p with
-  | FAdv _ _ start e => start <= e /\ below_set s e
-  | FAdvMax _ _ start e => start < e /\ below_set s e
-  | FCur _ f => below_set s f
+  | FAdv _ lo start e => start <= e /\ below_set s e /\ start <= fcur s /\ lo <= lowest_unset s
+  | FAdvMax _ lo start e => start < e /\ below_set s e /\ lo <= e
+  | FCur lo f => below_set s f /\ lo <= lowest_unset s /\ f <= fcur s
+  | FCurRet lo => lo <= fcur s
   | _ => True
   end.
+
+(* first_unset: the first index in [k, k+n) whose flag is unset, or k+n *)
+Lemma first_unset_bounds fl n k : k <= first_unset fl n k <= k + n.
+Proof. revert k; induction n as [|n IH]; intros k; simpl; [lia|]. destruct (fl k); [specialize (IH (S k))|]; lia. Qed.
+
+Lemma first_unset_all_set fl n k j : k <= j -> j < first_unset fl n k -> fl j = true.
+Proof.
+  revert k; induction n as [|n IH]; intros k Hk Hj; simpl in Hj; [lia|].
+  destruct (fl k) eqn:E; [|lia]. destruct (Nat.eq_dec j k) as [->|]; auto. apply (IH (S k)); auto; lia.
+Qed.
+
+Lemma first_unset_ge fl n k v : (forall j, k <= j -> j < v -> fl j = true) -> v <= k + n -> v <= first_unset fl n k.
+Proof.
+  revert k; induction n as [|n IH]; intros k Hall Hv; simpl; [lia|].
+  destruct (fl k) eqn:E.
+  - apply IH; [|lia]. intros j H1 H2. apply Hall; lia.
+  - destruct (le_lt_dec v k); auto. rewrite Hall in E; [discriminate|lia|lia].
+Qed.
+
+Lemma first_unset_mono fl fl' n k : (forall j, fl j = true -> fl' j = true) -> first_unset fl n k <= first_unset fl' n k.
+Proof.
+  intros H. revert k; induction n as [|n IH]; intros k; simpl; auto.
+  destruct (fl k) eqn:E.
+  - rewrite (H _ E). apply IH.
+  - pose proof (first_unset_bounds fl' n (S k)). destruct (fl' k); lia.
+Qed.
+
+Lemma below_le_lowest s v : below_set s v -> v <= lowest_unset s.
+Proof. intros [A B]. apply first_unset_ge; [intros j _ Hj; auto|lia]. Qed.
+
+Lemma lowest_le_n s : lowest_unset s <= fn s.
+Proof. pose proof (first_unset_bounds (flags s) (fn s) 0). unfold lowest_unset. lia. Qed.
+
+Lemma lowest_exact s e : below_set s e -> (e = fn s \/ flags s e = false) -> lowest_unset s = e.
+Proof.
+  intros B H. pose proof (below_le_lowest _ _ B). pose proof (lowest_le_n s).
+  destruct H as [->|H]; [lia|].
+  destruct (le_lt_dec (lowest_unset s) e); [lia|].
+  rewrite (first_unset_all_set (flags s) (fn s) 0 e) in H; [discriminate|lia|auto].
+Qed.
 
 Record finv (s : fstate) : Prop := {
   fi_sound : forall v, In v (fhist s) -> below_set s v;
   fi_mono : forall v, In v (fhist s) -> v <= fcur s;
   fi_nonempty : fhist s <> [];
   fi_pcs : forall t, pc_ok s (fpcs s t);
-  fi_ret : forall t lo r, In (t, lo, r) (returned s) -> below_set s r;
+  fi_ret : forall t lo r, In (t, lo, r) (returned s) -> below_set s r /\ lo <= r;
 }.
 
 Lemma finv_init n : finv (finit n).
@@ -40,6 +81,12 @@ Proof.
   intros [A B]. split; auto. intros k Hk. simpl. unfold upd. destruct (Nat.eqb k i); auto.
 Qed.
 
+Lemma lowest_flag s i h vw p r :
+  lowest_unset s <= lowest_unset (setf s (upd (flags s) i true) h vw p r).
+Proof.
+  unfold lowest_unset. simpl. apply first_unset_mono. intros j Hj. unfold upd. destruct (Nat.eqb j i); auto.
+Qed.
+
 Lemma last_in (l : list nat) d : l <> [] -> In (last l d) l.
 Proof.
   induction l as [|x l IH]; [congruence|]. intros _. destruct l as [|y l]; [left; reflexivity|].
@@ -51,6 +98,16 @@ Proof. intros Hn Hf. unfold below_set. rewrite Hn, Hf. auto. Qed.
 
 Ltac bs := eapply below_set_frame; [reflexivity|reflexivity|]; eauto.
 
+Lemma nth_opt_last (l : list nat) f d : nth_opt l (length l - 1) = Some f -> last l d = f.
+Proof.
+  induction l as [|x l IH]; simpl; [discriminate|]. destruct l as [|y l]; simpl in *.
+  - intros H; inversion H; auto.
+  - rewrite Nat.sub_0_r in *. intros H. apply IH. exact H.
+Qed.
+
+Lemma load_fresh s t f : load_ok s t (length (fhist s) - 1) = Some f -> f = fcur s.
+Proof. unfold load_ok. destruct (Nat.leb _ _); [|discriminate]. intros H. symmetry. apply nth_opt_last. exact H. Qed.
+
 Lemma load_in s t pos f : load_ok s t pos = Some f -> In f (fhist s).
 Proof. unfold load_ok. destruct (Nat.leb (fview s t) pos); [|discriminate]. apply nth_opt_In. Qed.
 
@@ -61,23 +118,19 @@ Ltac fcrunch H :=
   | Some _ = Some _ => inversion H; clear H
   end.
 
-Ltac pcs_other t Ip :=
-  let t' := fresh "t'" in
-  intros t'; simpl; destruct (Nat.eq_dec t' t) as [->|?];
-  [ rewrite upd_same | rewrite upd_other by auto; apply Ip ].
-
-(* below_set / pc_ok do not depend on views, pcs or the ghost *)
+(* pc_ok depends on n, the flags and (monotonically) on the newest frontier value only *)
 Lemma pc_ok_frame s s' p :
-  fn s' = fn s -> flags s' = flags s -> pc_ok s p -> pc_ok s' p.
+  fn s' = fn s -> flags s' = flags s -> fcur s <= fcur s' -> pc_ok s p -> pc_ok s' p.
 Proof.
-  intros Hn Hf. unfold pc_ok, below_set. rewrite Hn, Hf. auto.
+  intros Hn Hf Hc. unfold pc_ok, below_set, lowest_unset. rewrite Hn, Hf.
+  destruct p; auto; intuition lia.
 Qed.
 
 Theorem finv_step s e s' : finv s -> fstep s e = Some s' -> finv s'.
 Proof.
   intros [Is Im Ine Ip Ir] H.
   assert (Hframe : forall fl h v p r, fl = flags s -> h = fhist s ->
-            (forall t, pc_ok s (p t)) -> (forall t lo x, In (t, lo, x) r -> below_set s x) ->
+            (forall t, pc_ok s (p t)) -> (forall t lo x, In (t, lo, x) r -> below_set s x /\ lo <= x) ->
             finv (setf s fl h v p r)).
   { intros fl h v p r -> -> Hp Hr. constructor; simpl; auto. }
   destruct e; simpl in H.
@@ -87,60 +140,80 @@ Proof.
     constructor; simpl; auto.
     + intros v Hv. apply below_set_flag. auto.
     + intros t'. destruct (Nat.eq_dec t' t) as [->|?]; [rewrite upd_same; exact I|rewrite upd_other by auto].
-      specialize (Ip t'). destruct (fpcs s t'); simpl in *; auto.
-      * destruct Ip as [A B]; split; auto. apply below_set_flag; auto.
-      * destruct Ip as [A B]; split; auto. apply below_set_flag; auto.
-      * apply below_set_flag; auto.
-    + intros t' lo r Hr. apply below_set_flag. eauto.
+      specialize (Ip t'). pose proof (lowest_flag s i0 (fhist s) (fview s) (upd (fpcs s) t (FPub2 i0)) (returned s)) as Hl.
+      destruct (fpcs s t'); simpl in *; auto.
+      * destruct Ip as [A [B [C D]]]; repeat split; auto; try (apply below_set_flag; auto); try apply B. lia.
+      * destruct Ip as [A [B C]]; repeat split; auto; try (apply below_set_flag; auto); apply B.
+      * destruct Ip as [B [D F]]; repeat split; auto; try (apply below_set_flag; auto); try apply B. lia.
+    + intros t' lo r Hr. destruct (Ir _ _ _ Hr) as [A B]. split; auto. apply below_set_flag. auto.
   - (* PubLoad2 *) fcrunch H; subst; apply Hframe; auto.
     all: intros t'; destruct (Nat.eq_dec t' t) as [->|?]; [rewrite upd_same | rewrite upd_other by auto; apply Ip].
     destruct (Nat.eqb i n); [|exact I].
-    simpl. split; auto. apply Is. eapply load_in; eauto.
+    assert (Hin : In n (fhist s)) by (eapply load_in; eauto).
+    simpl. repeat split; auto; try apply (Is _ Hin); lia.
   - (* FlagLoad *) fcrunch H; subst. apply andb_prop in E0. destruct E0 as [E0 Eb]. apply andb_prop in E0. destruct E0 as [Ee El].
     apply Nat.eqb_eq in Ee. apply Nat.ltb_lt in El. subst.
-    pose proof (Ip t) as Pt. rewrite E in Pt. simpl in Pt. destruct Pt as [Hse [Hle Hall]].
+    pose proof (Ip t) as Pt. rewrite E in Pt. simpl in Pt. destruct Pt as [Hse [[Hle Hall] [Hsc Hlo]]].
     apply Hframe; auto.
     intros t'; destruct (Nat.eq_dec t' t) as [->|?]; [rewrite upd_same | rewrite upd_other by auto; apply Ip].
     destruct b; simpl.
-    + simpl in Eb. split; [lia|]. split; [lia|]. intros k Hk. destruct (Nat.eq_dec k e0) as [->|]; auto. apply Hall. lia.
-    + destruct (Nat.eqb_spec e0 start); [destruct ret; exact I|]. simpl. split; [lia|]. split; auto.
+    + simpl in Eb. repeat split; auto; try lia.
+      intros k Hk. destruct (Nat.eq_dec k e0) as [->|]; auto. apply Hall. lia.
+    + assert (Hlo' : (if flags s e0 then 0 else lo) <= e0).
+      { destruct (flags s e0) eqn:Ef; [lia|]. rewrite (lowest_exact s e0) in Hlo; auto. split; auto. }
+      destruct (Nat.eqb_spec e0 start).
+      * destruct ret; [|exact I]. simpl. lia.
+      * simpl. repeat split; auto; lia.
   - (* ScanEnd *) fcrunch H; subst. apply Nat.eqb_eq in E0.
-    pose proof (Ip t) as Pt. rewrite E in Pt. simpl in Pt. destruct Pt as [Hse [Hle Hall]].
+    pose proof (Ip t) as Pt. rewrite E in Pt. simpl in Pt. destruct Pt as [Hse [[Hle Hall] [Hsc Hlo]]].
+    pose proof (lowest_le_n s) as Hn.
     apply Hframe; auto.
     intros t'; destruct (Nat.eq_dec t' t) as [->|?]; [rewrite upd_same | rewrite upd_other by auto; apply Ip].
-    destruct (Nat.eqb_spec e start); [destruct ret; exact I|]. simpl. split; [lia|]. split; auto.
+    destruct (Nat.eqb_spec e start).
+    * destruct ret; [|exact I]. simpl. lia.
+    * simpl. repeat split; auto; lia.
   - (* FetchMax *) fcrunch H; subst. apply andb_prop in E0. destruct E0 as [Ev Epv]. apply Nat.eqb_eq in Ev, Epv. subst.
-    pose proof (Ip t) as Pt. rewrite E in Pt. simpl in Pt. destruct Pt as [Hse Hbe].
+    pose proof (Ip t) as Pt. rewrite E in Pt. simpl in Pt. destruct Pt as [Hse [Hbe Hlo]].
     assert (Hcur : below_set s (fcur s)) by (apply Is; apply last_in; auto).
     assert (Hnv : below_set s (Nat.max (fcur s) e)).
     { destruct (Nat.max_spec (fcur s) e) as [[_ ->]|[_ ->]]; auto. }
+    assert (Hc' : forall vw p r, fcur (setf s (flags s) (fhist s ++ [Nat.max (fcur s) e]) vw p r) = Nat.max (fcur s) e).
+    { intros. unfold fcur at 1. simpl. apply last_app1. }
     constructor; simpl.
     + intros v Hv. apply in_app_or in Hv. destruct Hv as [Hv|[<-|[]]]; bs.
-    + intros v Hv. unfold fcur. simpl. rewrite last_app1. apply in_app_or in Hv. destruct Hv as [Hv|[<-|[]]]; auto.
-      specialize (Im v Hv). unfold fcur in Im. lia.
+    + intros v Hv. rewrite Hc'. apply in_app_or in Hv. destruct Hv as [Hv|[<-|[]]]; auto.
+      specialize (Im v Hv). lia.
     + destruct (fhist s); discriminate.
     + intros t'. destruct (Nat.eq_dec t' t) as [->|?]; [rewrite upd_same | rewrite upd_other by auto].
-      * simpl. split; auto; bs.
-      * eapply pc_ok_frame; [| |apply Ip]; reflexivity.
-    + intros t' lo' r Hr. bs.
+      * simpl. rewrite Hc'. repeat split; auto; try (apply Hnv; fail); try lia.
+        pose proof (below_le_lowest _ _ Hbe) as Hb. unfold lowest_unset in *. simpl. lia.
+      * eapply pc_ok_frame; [| | |apply Ip]; try reflexivity. rewrite Hc'. lia.
+    + intros t' lo' r Hr. destruct (Ir _ _ _ Hr). split; auto; bs.
   - (* CurLoad *) fcrunch H; subst; apply Hframe; auto.
     intros t'; destruct (Nat.eq_dec t' t) as [->|?]; [rewrite upd_same | rewrite upd_other by auto; apply Ip].
-    simpl. apply Is. eapply load_in; eauto.
+    assert (Hin : In n (fhist s)) by (eapply load_in; eauto).
+    simpl. repeat split; auto; apply (Is _ Hin).
   - (* CurFlag *) fcrunch H; subst.
-    + pose proof (Ip t) as Pt. rewrite E in Pt. simpl in Pt.
+    + pose proof (Ip t) as Pt. rewrite E in Pt. simpl in Pt. destruct Pt as [Pb [Pl Pf]].
       apply Hframe; auto.
       intros t'; destruct (Nat.eq_dec t' t) as [->|?]; [rewrite upd_same | rewrite upd_other by auto; apply Ip].
-      simpl. split; auto.
-    + pose proof (Ip t) as Pt. rewrite E in Pt. simpl in Pt.
+      simpl. repeat split; auto; try apply Pb.
+    + pose proof (Ip t) as Pt. rewrite E in Pt. simpl in Pt. destruct Pt as [Pb [Pl Pf]].
       apply Hframe; auto.
       * intros t'; destruct (Nat.eq_dec t' t) as [->|?]; [rewrite upd_same; exact I | rewrite upd_other by auto; apply Ip].
-      * intros t' lo' r Hr. destruct (Nat.ltb f (fn s) && flags s f); eauto.
-        destruct Hr as [Heq|Hr]; eauto. inversion Heq; subst. exact Pt.
+      * intros t' lo' r Hr. destruct (Nat.ltb f (fn s) && flags s f) eqn:Ef; eauto.
+        destruct Hr as [Heq|Hr]; eauto. inversion Heq; subst. split; auto.
+        rewrite (lowest_exact s r) in Pl; auto.
+        apply andb_false_iff in Ef. destruct Ef as [Ef|Ef]; auto.
+        apply Nat.ltb_ge in Ef. destruct Pb. left. lia.
   - (* CurRet *) fcrunch H; subst.
+    pose proof (Ip t) as Pt. rewrite E in Pt. simpl in Pt.
     apply Hframe; auto.
     + intros t'; destruct (Nat.eq_dec t' t) as [->|?]; [rewrite upd_same; exact I | rewrite upd_other by auto; apply Ip].
-    + intros t' lo' r Hr. destruct (Nat.eqb pos (length (fhist s) - 1)); eauto.
-      destruct Hr as [Heq|Hr]; eauto. inversion Heq; subst. apply Is. eapply load_in; eauto.
+    + intros t' lo' r Hr. destruct (Nat.eqb_spec pos (length (fhist s) - 1)); eauto.
+      destruct Hr as [Heq|Hr]; eauto. inversion Heq; subst. split; [apply Is; eapply load_in; eauto|].
+      (* a fresh load returns the newest value *)
+      rewrite (load_fresh _ _ _ E0). exact Pt.
 Qed.
 
 Theorem finv_run s tr s' : finv s -> frun s tr = Some s' -> finv s'.
